@@ -189,9 +189,32 @@ if __name__ == "__main__":
     import resource
     resource.setrlimit(resource.RLIMIT_AS, (3 << 30, 3 << 30))
     out, seed, n = sys.argv[2], int(sys.argv[3]), int(sys.argv[4])
+    off = int(sys.argv[5]) if len(sys.argv) > 5 else 0
+    CHUNK = 150
+    if n > CHUNK:
+        # a long series is run in fresh processes of CHUNK executions each: parked OS threads of finished executions (and
+        # the allocator arenas that come with them) would otherwise add up to the address-space limit set above
+        import subprocess
+        recs = []
+        for c in range(0, n, CHUNK):
+            part = out + ".part"
+            env = dict(os.environ, MALLOC_ARENA_MAX="2")
+            rc = subprocess.call([sys.executable, os.path.abspath(__file__), "run", part, str(seed), str(min(CHUNK, n - c)), str(c)], env=env,
+                                 stdout=subprocess.DEVNULL)
+            if rc != 0 or not os.path.exists(part):
+                sys.stderr.write("chunk at %d failed rc=%s\n" % (c, rc))
+                sys.exit(3)
+            chunk = json.load(open(part))
+            os.remove(part)
+            recs += chunk
+            if chunk and chunk[-1]["end"] == "deadlock" and len(chunk) < min(CHUNK, n - c):
+                break                    # that process gave up after a blocked execution: the point is made
+        json.dump(recs, open(out, "w"))
+        print(len(recs))
+        sys.exit(0)
     recs = []
     for i in range(n):
-        recs.append(one(seed * 100003 + i))
+        recs.append(one(seed * 100003 + off + i))
         if STUCK_RUNS[0] >= 1 and recs[-1]["end"] == "deadlock":
             # a thread is blocked (or spinning) outside the scheduler's control and cannot be stopped: the point is made,
             # write what was recorded and leave the process at once
